@@ -869,6 +869,16 @@ func (in *inst) callExpr(ce *ast.CallExpr, parent ast.Node) ast.Expr {
 				}
 				ce.Args[0] = call(rt("CL"), in.site("close", ce), ce.Args[0])
 			}
+		case "len":
+			// observing how full a channel is depends on what other goroutines did in the
+			// meantime: a scheduling point immediately before the observation
+			if len(ce.Args) == 1 {
+				if t := in.info.TypeOf(ce.Args[0]); t != nil {
+					if _, ok := t.Underlying().(*types.Chan); ok {
+						ce.Args[0] = call(rt("LC"), in.site("chanlen", ce), ce.Args[0])
+					}
+				}
+			}
 		case "make":
 			if len(ce.Args) >= 2 {
 				tv := in.info.Types[ce.Args[0]]
